@@ -7,7 +7,9 @@ Python's doubles bit for bit):
   **as coded**: it returns `(x, a)`), `proj_segment` (distance to the line, inclusion test with the
   eight comparisons, recomputation of the foot, nearest end otherwise), `proj_polyligne`
   (near-zero-length segments skipped, strict `<` minimum, `UnboundLocalError` when nothing is kept);
-* `tracklib/algo/mapping.py`   `__projOnTrack`, `mapOnTrack` (both branches).
+* `tracklib/algo/mapping.py`   `__projOnTrack`, `mapOnTrack` (both branches);
+* second half of the file: the same functions with their argument forms (lists / numpy arrays, two sequences
+  of unequal lengths) and on 3D positions (`Track.getX()/getY()`, `ENUCoords(xproj, yproj, 0)`).
 
 Scalar-polymorphic (core Lean only): `Float` in the driver, an ordered field in the theorems.
 `sqrt` is a parameter (`math.sqrt`). Python's `ZeroDivisionError` (float division by `±0.0`) and
